@@ -8,7 +8,9 @@ func pfIn(a PField, lo, hi int) bool {
 	return a.Len == 0 || (int(a.Offs) >= lo && pfEnd(a) <= hi)
 }
 
-func pfSub(a, b PField) bool { return a.Len == 0 || (b.Len > 0 && int(a.Offs) >= int(b.Offs) && pfEnd(a) <= pfEnd(b)) }
+func pfSub(a, b PField) bool {
+	return a.Len == 0 || (b.Len > 0 && int(a.Offs) >= int(b.Offs) && pfEnd(a) <= pfEnd(b))
+}
 
 func notLWSByte(c byte) bool { return c != ' ' && c != '\t' && c != '\r' && c != '\n' }
 
@@ -137,5 +139,34 @@ func H_C05_chunk(t, w int) {
 		return
 	}
 	checkLayout(buf[:len(m.Buf)], &m, 0, ret)
+	vReach("accepted")
+}
+
+// H_C05_at: the message starts at offset k of the buffer, all 8 flag sets
+// (symbolic), one-shot or resumed once at a symbolic cut (choice 0 = one-shot;
+// a cut is not combined with the no-more-data flag).
+func H_C05_at(t, w, k int) {
+	text := vTpl(t, w)
+	buf := vPad(k, []byte{'\r', '\n'}, text)
+	flags := vU8() & 7
+	var m PSIPMsg
+	m.Init(nil, nil, nil)
+	o := k
+	if c := vChoice(len(text)); c > 0 && flags&SIPMsgNoMoreDataF == 0 {
+		var e ErrorHdr
+		o, e = ParseSIPMsg(buf[:k+c], k, &m, flags)
+		if e != ErrHdrMoreBytes {
+			vReach("early")
+			return
+		}
+	}
+	ret, e := ParseSIPMsg(buf, o, &m, flags)
+	vObs("ret", ret)
+	vObs("e", int(e))
+	if e != 0 {
+		vReach("not-accepted")
+		return
+	}
+	checkLayout(buf[:len(m.Buf)], &m, k, ret)
 	vReach("accepted")
 }
